@@ -70,7 +70,7 @@ func c12CheckListing(t *core.T, wd *sim.World, m *c12Model, id, when string) boo
 	if err != nil {
 		t.Fatalf("view: %v", err)
 	}
-	_, nonStaking, staking := c12History(v)
+	anyForm, _, staking := c12History(v)
 	if _, err := wd.W.W.UseWallet(id); err != nil {
 		t.Violate("usewallet-failed", when+": "+err.Error(), wd.Witness())
 		return false
@@ -88,7 +88,10 @@ func c12CheckListing(t *core.T, wd *sim.World, m *c12Model, id, when string) boo
 	}
 	ok := true
 	for _, is := range m.issued {
-		want := nonStaking[is.Hash]
+		// an address issued in standard form is used when the best chain pays its key in either form
+		// (the listing folds the staking form of a key into its standard address); an address issued
+		// in staking form is used when the best chain pays that staking address
+		want := anyForm[is.Hash]
 		if is.Class == 1 {
 			want = staking[is.Hash]
 		}
@@ -239,8 +242,14 @@ func c12Case(t *core.T, maxSteps int) {
 			if t.R.Chance(50) { // bias towards the newest ones (they decide the gap rule)
 				is = m.issued[len(m.issued)-1-t.R.Intn(minInt(len(m.issued), int(G)))]
 			}
+			// mostly in the form in which it was issued; sometimes in the other form of the same key
+			stakingForm := is.Class == 1
+			if t.R.Chance(15) {
+				stakingForm = !stakingForm
+				t.Count("payments_in_the_other_form_of_the_key", 1)
+			}
 			script := sim.P2WSH(is.Hash)
-			if is.Class == 1 {
+			if stakingForm {
 				script = sim.StakingScript(is.Hash, 3)
 			}
 			cb := sim.Coinbase(wd.N.Height()+1, t.R.Uint64(), []*wire.TxOut{wire.NewTxOut(int64(t.R.Range(1000, 9000000)), sim.P2WSH(wd.StrangerPub()))})
@@ -257,7 +266,7 @@ func c12Case(t *core.T, maxSteps int) {
 			}
 			if !paid {
 				cb.AddTxOut(wire.NewTxOut(int64(t.R.Range(1000, 9000000)), script))
-				if is.Class == 1 {
+				if stakingForm {
 					// coinbases pay standard scripts only; pay next time
 					cb.TxOut = cb.TxOut[:1]
 					txs = txs[:1]
@@ -574,7 +583,7 @@ func init() {
 		Rule: "case = seeded sequence of NewAddress (both classes), payments to arbitrary issued addresses (biased to the newest gap-limit ones), reorgs of depth 1-4 that may remove first payments, restarts, with gap limit 2-6 (10%: 7-20); after every step each issued address must be listed with used == 'best chain pays it'; " +
 			"every NewAddress is predicted by the model (must succeed at the next derivation index — address recomputed independently from the mnemonic — or must fail with the gap-limit error); at the end the mnemonic is restored into a second instance (hint 0, 1 or random) and must rediscover every issued address with chain history " +
 			"(skipped and counted when a reorg broke the gap invariant on the final chain). distinct_nontrivial = distinct (gap, op shape) of cases with ≥1 gap refusal or ≥1 reorg removing a first payment",
-		Assumptions: []string{"payments to an issued address use the form in which it was issued", "index derivation reference = harness BIP-39/BIP-32 (wallets in the C14 known-finding class are checked for ordering/uniqueness only)", "restore completeness is demanded only while the used indexes of the final chain satisfy the gap invariant"},
+		Assumptions: []string{"an address issued in standard form counts as used when the best chain pays its key in either form (the listing folds the staking form into the standard address); an address issued in staking form when the chain pays that staking address; 15 % of the payments use the other form of the key", "index derivation reference = harness BIP-39/BIP-32 (wallets in the C14 known-finding class are checked for ordering/uniqueness only)", "restore completeness is demanded only while the used indexes of the final chain satisfy the gap invariant"},
 		Cases:       func(tier string, seed int64) int { return plans[tier].cases },
 		Run:         func(t *core.T) { c12Case(t, plans[t.Tier].steps) },
 	})
